@@ -94,7 +94,7 @@ def main(ctx):
               "reached:closeframe_sent", "reached:own_drop_delivered", "reached:data_after_our_close_ignored",
               "reached:sendclose_while_closing", "reached:connecting_lost",
               "reached:deferred_onconnect_resolved_late", "reached:queued_write",
-              "reached:frames_behind_peer_close", "reason_cases", "code_cases", "code_echoed", "code_rejected"):
+              "reached:frames_behind_peer_close", "reached:prepared_message", "reason_cases", "code_cases", "code_echoed", "code_rejected"):
         ctx.require(n)
 
 
@@ -165,11 +165,12 @@ class Sys:
             # made from callbacks that were queued earlier.
             ev.append("settle")
             if p.state in (S_OPEN, S_CLOSING, S_CLOSED) and self.hs_done_len:
-                ev += ["sendClose", "sendClose3000r", "sendMessage", "sendMessageSync", "sendPing"]
+                ev += ["sendClose", "sendClose3000r", "sendMessage", "sendMessageSync", "sendPrepared",
+                       "sendPing"]
             return ev
         if p.state in (S_OPEN, S_CLOSING, S_CLOSED) and self.hs_done_len:
             ev += ["sendClose", "sendClose1000", "sendClose3000r", "sendCloseLong", "sendMessage",
-                   "sendMessageSync", "sendPing"]
+                   "sendMessageSync", "sendPrepared", "sendPing"]
         if reading:
             if p.state == S_CONNECTING and not self.hs_done_len and not self.hs_fed:
                 ev += ["peer:handshake", "peer:garbage-handshake"]
@@ -234,9 +235,13 @@ class Sys:
                     p.sendClose(3000, "r")
                 else:
                     p.sendClose(4999, LONG_REASON)
-            elif ev in ("sendMessage", "sendMessageSync"):
+            elif ev in ("sendMessage", "sendMessageSync", "sendPrepared"):
                 try:
-                    if ev == "sendMessageSync":
+                    if ev == "sendPrepared":
+                        # the prepared-message (broadcast) API
+                        p.sendPreparedMessage(p.factory.prepareMessage(b"pm", True))
+                        self.notes.add("prepared_message")
+                    elif ev == "sendMessageSync":
                         # queued write: goes out on a later reactor turn (a timer of the owned clock)
                         p.sendMessage(b"q", True, sync=True)
                         self.notes.add("queued_write")
